@@ -124,6 +124,10 @@ pub enum ElemKind {
     U128,
     /// 3-byte Copy values with alignment 1
     B3,
+    /// no drop glue, but Clone / Default / comparisons are caller code
+    Nd,
+    /// 40-byte Copy values
+    W40,
 }
 
 /// Dimension argument of a constructor.
